@@ -186,10 +186,11 @@ def run(ctx, R, tier):
             "the reset of pyroInstances can be skipped (it sits behind a call whose failure is suppressed): after a connection reset by the peer the session instances are kept")
     # ... and every server type really closes an ended connection, also when the disconnect hook raises (shared with C13-R1/R2)
     from ..report import Rules
+    from ..report import run_shared as _run_shared
     from . import c13
     R13 = Rules("C13")
     try:
-        c13.run(ctx, R13, tier)
+        _run_shared(ctx, c13, R13, tier)
     except AnalysisError as _shared_x:
         # the other property's own anchors are gone on this tree: its check reports that; what it produced before is still shared
         R.note("obligations shared from C13 are incomplete on this tree: %s" % _shared_x)
